@@ -32,6 +32,15 @@ streams = {
     "racing-namespace": gen.racing_namespace_cases(range(60)),
     "probes": gen.deadline_probe_cases(list(range(0, 100, 9)), ackdls=(0, 5, 11), gaps=(40, 70)),
     "capacity": gen.capacity_cases([0, 1, 999, 1001], [1, 1000, 1001, 65536, 2147483647], drain=True),
+    "subset-lists": [(c, gen.with_drain(o)) for c, o in gen.subset_list_cases()],
+    "mixed-modify-wake": [(c, gen.with_drain(o)) for c, o in gen.mixed_modify_wake_cases()],
+    "boundary-counts": gen.boundary_count_cases(),
+    "expiry-load": gen.expiry_load_cases((255, 256, 512, 1000), reps=(1, 4)),
+    "create-delete-race": gen.create_delete_race_cases(range(0, 8)),
+    "control-enum": gen.control_enum_cases(2),
+    "stream-enum": gen.stream_enum_cases(2),
+    "paging-walks": gen.paging_walk_cases([0, 1, 20, 21, 41], [-1, 0, 1, 7, 20, 1001], seed=seed),
+    "probes-pub": [(c, gen.with_drain(o)) for c, o in gen.deadline_probe_cases(list(range(0, 100, 13)), ackdls=(0, 11), gaps=(40,), pub_probe=True)],
 }
 mons = {
     "data-stream": [M.mon_exclusive, M.mon_ack_final, M.mon_deadline, M.mon_payload, M.mon_order, M.mon_batch, M.mon_fanout,
@@ -52,6 +61,15 @@ mons = {
     "racing-namespace": [M.mon_racing_namespace],
     "probes": [M.mon_exclusive, M.mon_deadline],
     "capacity": [M.mon_batch, M.mon_fanout],
+    "subset-lists": [M.mon_ack_final, M.mon_deadline, M.mon_fanout, M.mon_exclusive],
+    "mixed-modify-wake": [M.mon_wait, M.mon_fanout],
+    "boundary-counts": [M.mon_count_hang, M.mon_wait],
+    "expiry-load": [M.mon_fanout],
+    "create-delete-race": [M.mon_create_delete_race],
+    "control-enum": [M.mon_namespace, M.mon_fanout, M.mon_payload],
+    "stream-enum": [M.mon_ack_final, M.mon_deadline, M.mon_fanout],
+    "paging-walks": [M.mon_walk, M.mon_namespace],
+    "probes-pub": [M.mon_deadline, M.mon_fanout, M.mon_exclusive],
 }
 total = 0
 for name, cases in streams.items():
